@@ -42,10 +42,15 @@ k3/gin.singleton.constructor = @c18.Falsy
 c18.user3b.x = @k3/gin.singleton()
 c18.user4.x = @k4/gin.singleton()
 k4/gin.singleton.constructor = @c18.make_none
+c18.user5.x = @k5/gin.singleton()
+k5/gin.singleton.constructor = @c18.flaky
 """ + 'c18.user_o1.x = @ko1/gin.singleton()\nko1/gin.singleton.constructor = @c18.outer\nko1/c18.outer.deps = [@na0/gin.singleton(), @na1/gin.singleton(), @na2/gin.singleton()]\nc18.user_o2.x = @ko2/gin.singleton()\nko2/gin.singleton.constructor = @c18.outer\nko2/c18.outer.deps = [@nb0/gin.singleton(), @nb1/gin.singleton(), @nb2/gin.singleton()]\nna0/gin.singleton.constructor = @c18.Leaf\nnb0/gin.singleton.constructor = @c18.Leaf\nna1/gin.singleton.constructor = @c18.Leaf\nnb1/gin.singleton.constructor = @c18.Leaf\nna2/gin.singleton.constructor = @c18.Leaf\nnb2/gin.singleton.constructor = @c18.Leaf\n' + 'c18.user_w1.x = @ko1w/gin.singleton()\nko1w/gin.singleton.constructor = @c18.outer\nko1w/c18.outer.deps = [@wa0/gin.singleton(), @wa1/gin.singleton(), @wa2/gin.singleton(), @wa3/gin.singleton(), @wa4/gin.singleton(), @wa5/gin.singleton(), @wa6/gin.singleton(), @wa7/gin.singleton(), @wa8/gin.singleton(), @wa9/gin.singleton()]\nc18.user_w2.x = @ko2w/gin.singleton()\nko2w/gin.singleton.constructor = @c18.outer\nko2w/c18.outer.deps = [@wb0/gin.singleton(), @wb1/gin.singleton(), @wb2/gin.singleton(), @wb3/gin.singleton(), @wb4/gin.singleton(), @wb5/gin.singleton(), @wb6/gin.singleton(), @wb7/gin.singleton(), @wb8/gin.singleton(), @wb9/gin.singleton()]\nwa0/gin.singleton.constructor = @c18.Leaf\nwb0/gin.singleton.constructor = @c18.Leaf\nwa1/gin.singleton.constructor = @c18.Leaf\nwb1/gin.singleton.constructor = @c18.Leaf\nwa2/gin.singleton.constructor = @c18.Leaf\nwb2/gin.singleton.constructor = @c18.Leaf\nwa3/gin.singleton.constructor = @c18.Leaf\nwb3/gin.singleton.constructor = @c18.Leaf\nwa4/gin.singleton.constructor = @c18.Leaf\nwb4/gin.singleton.constructor = @c18.Leaf\nwa5/gin.singleton.constructor = @c18.Leaf\nwb5/gin.singleton.constructor = @c18.Leaf\nwa6/gin.singleton.constructor = @c18.Leaf\nwb6/gin.singleton.constructor = @c18.Leaf\nwa7/gin.singleton.constructor = @c18.Leaf\nwb7/gin.singleton.constructor = @c18.Leaf\nwa8/gin.singleton.constructor = @c18.Leaf\nwb8/gin.singleton.constructor = @c18.Leaf\nwa9/gin.singleton.constructor = @c18.Leaf\nwb9/gin.singleton.constructor = @c18.Leaf\n'
 
 
 def setup():
+  # FIRST: whatever a wrapper captures at registration time (a lock held in its closure) must already be a model lock
+  sched.install_model_locks()
+
   @gin.configurable(module='c18')
   def f(a=1, b=2, c='c'):
     return (a, b)
@@ -73,6 +78,21 @@ def setup():
   def make_none():
     COUNT['make_none'] = COUNT.get('make_none', 0) + 1
     return None
+
+  @gin.configurable(module='c18')
+  def flaky():
+    """A constructor that fails the first time it runs (a resource that is not there yet) and works afterwards."""
+    ATTEMPTS['flaky'] = ATTEMPTS.get('flaky', 0) + 1
+    if ATTEMPTS['flaky'] == 1:
+      raise IOError('resource not ready')
+    COUNT['flaky'] = COUNT.get('flaky', 0) + 1
+    return FlakyObj()
+
+  @gin.configurable(module='c18')
+  def user5(x='unset'):
+    return x
+  global USER5
+  USER5 = user5
 
   @gin.configurable(module='c18')
   class Leaf:
@@ -149,6 +169,21 @@ def setup():
   sched.install_model_locks()
 
 
+class FlakyObj:
+  pass
+
+
+ATTEMPTS = {}
+
+
+def b_user_tolerant():
+  """Uses the singleton; a failure of the constructor itself (its own IOError) is this caller's to handle."""
+  try:
+    return ('obj', USER5())
+  except IOError:
+    return ('f', 'constructor failed')
+
+
 def b_scoped(scope):
   def body():
     with gin.config_scope(scope):
@@ -213,15 +248,17 @@ HARNESSES = {
     # the same with ten nested singletons per constructor (thorough tier only: long bodies)
     'H10_nested_singleton_constructors_wide': lambda: [b_user('USER_W1'), b_user('USER_W2')],
     # dynamic registration (the reader also collects the imports the records need): first calls vs a reader
+    # the constructor raises the first time it runs: that caller sees the error, every other use gets the one object
+    'H12_singleton_constructor_fails_once': lambda: [b_user_tolerant, b_user_tolerant, b_user_tolerant],
     'H11_dynamic_registration_first_calls+reader': lambda: [b_dyn('second'), b_dyn('second', 's'), b_reader],
 }
 
 
 def bound(tier):
   if tier == 'quick':
-    return ('threads: 10 harnesses (2-3 threads; the wide nested-constructor harness H10 runs in the thorough tier only), all schedules with <=1 preemption at shared-state granularity plus <=3 (2 threads) / '
+    return ('threads: 11 harnesses (2-3 threads; the wide nested-constructor harness H10 runs in the thorough tier only), all schedules with <=1 preemption at shared-state granularity plus <=3 (2 threads) / '
             '<=2 (3 threads) preemptions at points inside the code that touches the store concerned; sequential depth 4')
-  return ('threads: 11 harnesses, all schedules with <=2 preemptions at shared-state granularity and <=1 at '
+  return ('threads: 12 harnesses, all schedules with <=2 preemptions at shared-state granularity and <=1 at '
           'all-gin-lines granularity; sequential depth 6')
 
 
@@ -255,6 +292,8 @@ def make_world(hname):
   def make():
     harness.hard_reset()
     COUNT.clear()
+    ATTEMPTS.clear()
+    gin.clear_config()      # History: the configuration was cleared before (the program re-configures itself)
     gin.parse_config(HCONFIG.get(hname, CONFIG))
     return HARNESSES[hname]()
   return make
